@@ -159,6 +159,23 @@ def run (op : String) (a : Json) : Option (Except String Json) :=
       match docs.mapM (fun d => mapDict e d name) with
       | some css => pure <| optClasses (reduceClasses css.flatten)
       | none => pure <| err "IndexError"
+  | "smp.e2e_xml" => some do
+      let e ← dEnv a
+      let docs ← (← asArr (fld a "trees")).mapM dEl
+      pure <| match allAdmitted (docs.flatMap (mapElement e)) with
+        | some true => ok (Json.str "accepted")
+        | some false => ok (Json.str "model-rejects")
+        | none => err "IndexError"
+  | "smp.e2e_json" => some do
+      let e ← dEnv a
+      let name ← asStr (fld a "name")
+      let docs ← (← asArr (fld a "enc")).mapM fun d => do dictOf (← dJVal d)
+      match docs.mapM (fun d => mapDict e d name) with
+      | some css => pure <| match allAdmitted css.flatten with
+        | some true => ok (Json.str "accepted")
+        | some false => ok (Json.str "model-rejects")
+        | none => err "IndexError"
+      | none => pure <| err "IndexError"
   | _ => none
 
 end OpsSamples
